@@ -7,7 +7,7 @@ package ip
 // C02: a target is accepted only as an IPv4 network (4-byte address, 4-byte canonical mask); every text that
 // contains a colon (every IPv6 form, including IPv4-mapped ones) is refused with ErrInvalidAddr; never a panic.
 //@ func ParseIPNet
-//@   props C02 C18 C01 C03 C13 C17
+//@   props C02 C18 C01 C03 C13 C17 C08
 //@   modifies nothing
 //@   ensures ipv4only: ret1 == nil ==> ret0 != nil && len(ret0.IP) == 4 && len(ret0.Mask) == 4 && canonical(content(ret0.Mask))
 //@   ensures refuse6:  strcontains(subnet, ":") ==> ret0 == nil && ret1 == ErrInvalidAddr
